@@ -390,6 +390,42 @@ func (m *Machine) conv(fr *frame, dst, src types.Type, x Val) Val {
 	panic(fmt.Sprintf("conv: unsupported %v -> %v (%T)", src, dst, x))
 }
 
+
+// appendVals is Go's append on the interpreter's slices: in place when the capacity allows (the backing array is shared
+// with every other slice of it, as natively), otherwise into a new array of doubled capacity.
+func appendVals(s Slice, add []Val) Slice {
+	if len(add) == 0 {
+		return s
+	}
+	n := len(s)
+	if n+len(add) <= cap(s) {
+		s = s[:n+len(add)]
+	} else {
+		nc := 2 * cap(s)
+		if nc < n+len(add) {
+			nc = n + len(add)
+		}
+		ns := make(Slice, n+len(add), nc)
+		copy(ns, s)
+		// spare capacity holds zero values of the element type
+		if nc > n+len(add) {
+			var z Val
+			if len(add) > 0 {
+				z = zeroLike(add[0])
+			}
+			full := ns[:nc]
+			for i := n + len(add); i < nc; i++ {
+				full[i] = z
+			}
+		}
+		s = ns
+	}
+	for i, v := range add {
+		s[n+i] = copyVal(v)
+	}
+	return s
+}
+
 // ------------------------------------------------------------------ builtins
 
 func (m *Machine) callBuiltin(fr *frame, pos token.Pos, fn *ssa.Builtin, args []Val) Val {
@@ -409,36 +445,7 @@ func (m *Machine) callBuiltin(fr *frame, pos token.Pos, fn *ssa.Builtin, args []
 		default:
 			panic(fmt.Sprintf("append: %T", a))
 		}
-		if len(add) == 0 {
-			return s
-		}
-		n := len(s)
-		if n+len(add) <= cap(s) {
-			s = s[:n+len(add)]
-		} else {
-			nc := 2 * cap(s)
-			if nc < n+len(add) {
-				nc = n + len(add)
-			}
-			ns := make(Slice, n+len(add), nc)
-			copy(ns, s)
-			// spare capacity holds zero values of the element type
-			if nc > n+len(add) {
-				var z Val
-				if len(add) > 0 {
-					z = zeroLike(add[0])
-				}
-				full := ns[:nc]
-				for i := n + len(add); i < nc; i++ {
-					full[i] = z
-				}
-			}
-			s = ns
-		}
-		for i, v := range add {
-			s[n+i] = copyVal(v)
-		}
-		return s
+		return appendVals(s, add)
 	case "copy":
 		dst := args[0].(Slice)
 		var src []Val
